@@ -7,7 +7,7 @@ use sup::*;
 
 fn be16(a: u8, b: u8) -> u16 { ((a as u16) << 8) | b as u16 }
 
-//# id=decode.total props=C14,C08 kind=complete pair=
+//# id=decode.total fns=UdpHeader::from_bytes_ipv4 props=C14,C08 kind=complete pair=
 #[cfg_attr(kani, kani::proof)]
 #[cfg_attr(vx_replay, test)]
 fn h_udp_decode_total() {
@@ -23,7 +23,7 @@ fn h_udp_decode_total() {
     vx_cover!(r.is_ok());
 }
 
-//# id=decode.reencode props=C08,C14 kind=complete pair=
+//# id=decode.reencode fns=UdpHeader::from_bytes_ipv4+build_udp_header props=C08,C14 kind=complete pair=
 #[cfg_attr(kani, kani::proof)]
 #[cfg_attr(kani, kani::unwind(10))]
 #[cfg_attr(vx_replay, test)]
@@ -51,7 +51,7 @@ fn h_udp_decode_reencode() {
     }
 }
 
-//# id=encode.decode_and_wire_format props=C08 kind=complete pair=
+//# id=encode.decode_and_wire_format fns=build_udp_header+UdpHeader::from_bytes_ipv4 props=C08 kind=complete pair=
 #[cfg_attr(kani, kani::proof)]
 #[cfg_attr(kani, kani::unwind(10))]
 #[cfg_attr(vx_replay, test)]
